@@ -53,8 +53,10 @@ def guarded_execute_once(it):
 
 class Runner:
     def __init__(self, spec, builder='api', event='e', extra_context=None, interp_kwargs=None,
-                 prebuilt=None, observe=False):
+                 prebuilt=None, observe=False, bystander=False):
         self.observe = observe
+        self.bystander = bystander
+        self.shadow = None
         self.spec = spec
         self.model = Model(spec)
         self.T = self.model.T
@@ -147,6 +149,15 @@ class Runner:
 
     def execute(self, hist, op, conf_before, snaps_before):
         it = self.fresh(hist)
+        if self.bystander:
+            # a second interpreter of the very same Statechart object is created and driven (through a shorter
+            # history) while the first one is alive: interpreters must not share anything mutable
+            if self.shadow is None:
+                self.shadow = Runner(self.spec, prebuilt=(self.sc, self.objs), event=self.event,
+                                     extra_context=self.extra_context, interp_kwargs=self.interp_kwargs)
+            kept = self.kept
+            self._by = self.shadow.fresh(hist[:-1] if hist else ())
+            self.kept = kept
         ex = Exec()
         ex.hist, ex.op = hist, op
         ex.conf_before, ex.snaps_before = conf_before, snaps_before
@@ -249,11 +260,11 @@ def _plain_ctx(ctx):
 
 
 def explore(spec, k, oracles, builder='api', max_states=100000, k_by_arity=None, extra_ops=True,
-            runner=None, on_exec=None, observe=False):
+            runner=None, on_exec=None, observe=False, bystander=False):
     """complete BFS over (configuration, snapshots).
     oracles: list of callables (runner, ex) -> list of (category, detail)
     -> dict(states, transitions, outcomes Counter, violations [..], exhaustive bool)"""
-    R = runner or Runner(spec, builder, observe=observe)
+    R = runner or Runner(spec, builder, observe=observe, bystander=bystander)
     model = R.model
     res = {'states': 0, 'transitions': 0, 'outcomes': collections.Counter(), 'violations': [],
            'exhaustive': True, 'max_depth': 0}
